@@ -5,7 +5,7 @@
 From Coq Require Import List NArith ZArith Bool.
 Import ListNotations.
 From SV Require Fmt.CmdSeq Fmt.ScenesImageCfg Fmt.SndStacks Fmt.BspDedup Fmt.C20KeyTables Fmt.ChoreoQuant Fmt.VmtQuote Fmt.TextLines
-  Fmt.SmdTpl Fmt.SmdWords.
+  Fmt.SmdTpl Fmt.SmdWords Fmt.VmtBlocks.
 
 Record gen_objects : Type := mkGen {
   g_cmdseq : Fmt.CmdSeq.cfg;                          (* Gen/CmdSeqFmt_gen.v  gen_cfg *)
@@ -17,7 +17,8 @@ Record gen_objects : Type := mkGen {
   g_vmt_nq : Fmt.VmtQuote.nqcfg;                      (* Gen/TextFields_gen.v vmt_nq *)
   g_snd_lines : list (list Fmt.TextLines.titem);      (*                      snd_lines *)
   g_cho_lines : list (list Fmt.TextLines.titem);      (*                      cho_lines *)
-  g_smd_lines : list Fmt.SmdTpl.line                  (* Gen/SmdTpl_gen.v     smd_lines *)
+  g_smd_lines : list Fmt.SmdTpl.line;                 (* Gen/SmdTpl_gen.v     smd_lines *)
+  g_vmt_blocks : Fmt.VmtBlocks.bcfg                   (* Gen/VmtBlocks_gen.v  vmt_bcfg *)
 }.
 
 (** an SMD line is either delimited (every conversion between whitespace) or the bone line  %i "%s" %i *)
@@ -31,4 +32,5 @@ Definition premises (g : gen_objects) : bool :=
   && forallb Fmt.ChoreoQuant.all_stable (g_quant g)
   && Fmt.VmtQuote.nq_okb (g_vmt_nq g)
   && forallb Fmt.TextLines.items_ok (g_snd_lines g) && forallb Fmt.TextLines.items_ok (g_cho_lines g)
-  && forallb smd_line_okb (g_smd_lines g).
+  && forallb smd_line_okb (g_smd_lines g)
+  && Fmt.VmtBlocks.bcfg_okb (g_vmt_blocks g) && Fmt.VmtBlocks.bcfg_shape_okb (g_vmt_blocks g).
